@@ -106,7 +106,7 @@ func ruleCompact(p *Prog, r *RuleResult) {
 			src = sl.X
 		}
 		fv := fieldVarOfLoad(src)
-		if fv == nil || fv.Name() != "data" {
+		if fv == nil || fv != s.dataF {
 			return
 		}
 		found = true
@@ -170,8 +170,28 @@ func ruleCompact(p *Prog, r *RuleResult) {
 	r.floor(1, n, "compaction sites (result packing, chain packing)")
 }
 
+// slotType: the struct type of the shared block-buffer slots (what the tasks' buffer pointer fields point to).
+func slotType(p *Prog) *types.Named {
+	s := resolveSide(p, "Reader")
+	st := s.taskT.Underlying().(*types.Struct)
+	for i := 0; i < st.NumFields(); i++ {
+		if pt, ok := st.Field(i).Type().(*types.Pointer); ok {
+			if n, ok := pt.Elem().(*types.Named); ok {
+				if ss, ok := n.Underlying().(*types.Struct); ok && ss.NumFields() == 1 && isByteSlice(ss.Field(0).Type()) {
+					return n
+				}
+			}
+		}
+	}
+	return nil
+}
+
 func ruleBufFresh(p *Prog, r *RuleResult) {
 	n := 0
+	slotT := slotType(p)
+	if slotT == nil {
+		undecided("cannot identify the block-buffer slot type from the task fields")
+	}
 	var k keyer
 	for _, f := range p.ModFns {
 		if p.Rel(f) != "io" {
@@ -188,7 +208,7 @@ func ruleBufFresh(p *Prog, r *RuleResult) {
 				return
 			}
 			nt := namedOf(fa.X.Type())
-			if nt == nil || nt.Obj().Name() != "blockBuffer" {
+			if nt == nil || nt != slotT {
 				return
 			}
 			n++
@@ -223,7 +243,7 @@ func ruleBufFresh(p *Prog, r *RuleResult) {
 						// a load of a Buf slot (growing the slot's own buffer)
 						if x.Op == token.MUL {
 							if fa2, ok := x.X.(*ssa.FieldAddr); ok {
-								if n2 := namedOf(fa2.X.Type()); n2 != nil && n2.Obj().Name() == "blockBuffer" {
+								if n2 := namedOf(fa2.X.Type()); n2 != nil && n2 == slotT {
 									// same slot: both addresses derive from the same task field / same index expression
 									return sameSlot(fa.X, fa2.X)
 								}
@@ -391,12 +411,26 @@ func ruleReadFull(p *Prog, r *RuleResult) {
 	}
 	var pbCall *ssa.Call
 	eachInstr(f, func(i ssa.Instruction) {
-		if c, ok := i.(*ssa.Call); ok && c.Call.StaticCallee() != nil && c.Call.StaticCallee().Name() == "processBlock" {
+		if c, ok := i.(*ssa.Call); ok && c.Call.StaticCallee() != nil && c.Call.StaticCallee() == p.MethodOpt("io", "Reader", "processBlock") {
 			pbCall = c
 		}
 	})
 	if pbCall == nil {
 		undecided("%s: no processBlock call", fname)
+	}
+	// the field that receives the byte count delivered by processBlock
+	var availF *types.Var
+	for _, ref := range *pbCall.Referrers() {
+		if ex, ok := ref.(*ssa.Extract); ok && ex.Index == 0 {
+			for _, r2 := range *ex.Referrers() {
+				if st, ok := r2.(*ssa.Store); ok {
+					availF = fieldVarOfAddr(st.Addr)
+				}
+			}
+		}
+	}
+	if availF == nil {
+		undecided("%s: the byte count of processBlock is not stored in a field", fname)
 	}
 	cut := map[edge]bool{}
 	nfull, neos := 0, 0
@@ -421,7 +455,7 @@ func ruleReadFull(p *Prog, r *RuleResult) {
 			}
 			continue
 		}
-		if fv := fieldVarOfLoad(bo.X); fv != nil && fv.Name() == "available" && bo.Op == token.EQL && instrDominates(pbCall, ifi) {
+		if fv := fieldVarOfLoad(bo.X); fv != nil && fv == availF && bo.Op == token.EQL && instrDominates(pbCall, ifi) {
 			cut[edge{b, succFor(pos, true)}] = true
 			neos++
 		}
@@ -498,6 +532,35 @@ func ruleBlockBound(p *Prog, r *RuleResult) {
 			}
 		}
 	}
+	// the input slot and the block length are taken from the source argument of Forward: data[0:blockLength]
+	var slotF, lenF *types.Var
+	if sl, ok := fwd.Call.Args[len(fwd.Call.Args)-2].(*ssa.Slice); ok {
+		if sl.High != nil {
+			lenF = fieldVarOfLoad(stripConvert(sl.High))
+		}
+		base := sl.X
+		for d := 0; d < 6; d++ {
+			if ph, ok := base.(*ssa.Phi); ok {
+				base = ph.Edges[0]
+				continue
+			}
+			if c, ok := base.(*ssa.Call); ok {
+				if b, ok := c.Call.Value.(*ssa.Builtin); ok && b.Name() == "append" {
+					base = c.Call.Args[0]
+					continue
+				}
+			}
+			break
+		}
+		if u, ok := base.(*ssa.UnOp); ok && u.Op == token.MUL {
+			if fa, ok := u.X.(*ssa.FieldAddr); ok {
+				slotF = fieldVarOfLoad(fa.X)
+			}
+		}
+	}
+	if slotF == nil || lenF == nil {
+		undecided("%s: cannot identify the input slot and block length from the source argument of Forward", fname)
+	}
 	eachInstr(f, func(i ssa.Instruction) {
 		u, ok := i.(*ssa.UnOp)
 		if !ok || u.Op != token.MUL {
@@ -507,7 +570,7 @@ func ruleBlockBound(p *Prog, r *RuleResult) {
 		if !ok {
 			return
 		}
-		if outer := fieldVarOfLoad(fa.X); outer != nil && outer.Name() == "iBuffer" {
+		if outer := fieldVarOfLoad(fa.X); outer != nil && outer == slotF {
 			grow(u, 0)
 		}
 	})
@@ -551,7 +614,7 @@ func ruleBlockBound(p *Prog, r *RuleResult) {
 			return
 		}
 		for _, a := range c.Call.Args {
-			if sl, ok := a.(*ssa.Slice); ok && whole[sl.X] && sl.High != nil && fieldVarOfLoad(stripConvert(sl.High)) != nil && fieldVarOfLoad(stripConvert(sl.High)).Name() == "blockLength" {
+			if sl, ok := a.(*ssa.Slice); ok && whole[sl.X] && sl.High != nil && fieldVarOfLoad(stripConvert(sl.High)) == lenF {
 				bounded++
 			}
 		}
